@@ -168,12 +168,112 @@ fn spawn_via(e: Entry) -> Spawned {
         Entry::BuildOnStreamSpawnOwning => Spawned::Own(hannibal::build(probe()).on_stream(new_stream()).spawn_owning()),
         Entry::BuildBoundedOnStreamSpawn => Spawned::Addr(hannibal::build(probe()).bounded_on_stream(1, new_stream()).spawn()),
         Entry::BuildBoundedOnStreamSpawnOwning => Spawned::Own(hannibal::build(probe()).bounded_on_stream(1, new_stream()).spawn_owning()),
-        Entry::BuildRegister => Spawned::Addr(block_inline(hannibal::build(probe()).unbounded().register()).expect("register").0),
-        Entry::AddrRegister => Spawned::Addr(block_inline(probe().spawn().register()).expect("register").0),
-        Entry::FromRegistry => Spawned::Addr(block_inline(P::from_registry())),
-        Entry::Setup => {
-            block_inline(P::setup()).expect("setup");
-            Spawned::Addr(P::try_from_registry().expect("registered after setup"))
+        Entry::BuildRegister | Entry::AddrRegister | Entry::FromRegistry | Entry::Setup => unreachable!("registry entry points run inside the client task (spawn_in_task)"),
+    }
+}
+
+/// The client program of `prog`, for an entry point that returned an owner (`owning`) or a plain address.
+fn ops_for(prog: Prog, owning: bool) -> Vec<Op> {
+    let t = if owning { H::Own(0) } else { H::Addr(0) };
+    match prog {
+        Prog::Call => vec![Op::Call(t, 1), Op::Call(t, 2)],
+        Prog::DropOthersCall => {
+            if owning {
+                vec![Op::ToAddr(H::Own(0)), Op::Drop(H::Own(0)), Op::Yield, Op::Call(H::Addr(0), 1)]
+            } else {
+                // (for spawn_with the ActorHandle is dropped below, before the client runs)
+                vec![Op::Clone(H::Addr(0)), Op::Drop(H::Addr(0)), Op::Yield, Op::Call(H::Addr(1), 1)]
+            }
+        }
+        Prog::DetachCall => {
+            if owning {
+                vec![Op::Detach(H::Own(0)), Op::Yield, Op::Call(H::Addr(0), 1)]
+            } else {
+                vec![Op::Yield, Op::Call(H::Addr(0), 1)]
+            }
+        }
+        Prog::StopAwaitJoin => {
+            if owning {
+                vec![Op::Call(t, 1), Op::ToAddr(H::Own(0)), Op::Stop(H::Addr(0)), Op::Await(H::Addr(0)), Op::Join(H::Own(0))]
+            } else {
+                vec![Op::Call(t, 1), Op::Clone(H::Addr(0)), Op::Stop(H::Addr(0)), Op::Await(H::Addr(1))]
+            }
+        }
+        Prog::Ticks => vec![Op::Sleep(4), Op::Call(t, 1)],
+        Prog::CallDropAll => vec![Op::Call(t, 1)],
+        Prog::AbandonJoinDetachCall => {
+            if owning {
+                vec![Op::Call(t, 1), Op::JoinStart(H::Own(0)), Op::JoinDrop(0), Op::Detach(H::Own(0)), Op::Yield, Op::Call(H::Addr(0), 2)]
+            } else {
+                vec![Op::Call(t, 1), Op::Yield, Op::Call(t, 2)]
+            }
+        }
+        Prog::AbandonJoinDropOwnerCall => {
+            if owning {
+                vec![Op::Call(t, 1), Op::JoinStart(H::Own(0)), Op::JoinDrop(0), Op::ToAddr(H::Own(0)), Op::Drop(H::Own(0)), Op::Yield, Op::Call(H::Addr(0), 2)]
+            } else {
+                vec![Op::Call(t, 1), Op::Yield, Op::Call(t, 2)]
+            }
+        }
+        Prog::PendingJoinDetachCall => {
+            if owning {
+                vec![Op::Call(t, 1), Op::JoinStart(H::Own(0)), Op::Detach(H::Own(0)), Op::Yield, Op::Call(H::Addr(0), 2)]
+            } else {
+                vec![Op::Call(t, 1), Op::Yield, Op::Call(t, 2)]
+            }
+        }
+        Prog::InFlightJoinDetachCall => {
+            if owning {
+                vec![Op::Call(t, 1), Op::JoinStart(H::Own(0)), Op::JoinPollOnce(0), Op::Detach(H::Own(0)), Op::Yield, Op::Call(H::Addr(0), 2)]
+            } else {
+                vec![Op::Call(t, 1), Op::Yield, Op::Call(t, 2)]
+            }
+        }
+        Prog::InFlightJoinSecondJoin => {
+            if owning {
+                vec![
+                    Op::Call(t, 1),
+                    Op::JoinStart(H::Own(0)),
+                    Op::JoinPollOnce(0),
+                    Op::JoinStart(H::Own(0)),
+                    Op::JoinPollOnce(1),
+                    Op::ToAddr(H::Own(0)),
+                    Op::Stop(H::Addr(0)),
+                    Op::JoinAwait(0),
+                ]
+            } else {
+                vec![Op::Call(t, 1), Op::Yield, Op::Call(t, 2)]
+            }
+        }
+        Prog::UnwindDropOwnerCall => {
+            if owning {
+                vec![Op::Call(t, 1), Op::ToAddr(H::Own(0)), Op::DropUnwinding(H::Own(0)), Op::Yield, Op::Call(H::Addr(0), 2)]
+            } else {
+                vec![Op::Call(t, 1), Op::Clone(H::Addr(0)), Op::DropUnwinding(H::Addr(0)), Op::Yield, Op::Call(H::Addr(1), 2)]
+            }
+        }
+        Prog::PanicAwaitJoin => {
+            if owning {
+                vec![Op::Call(t, 1), Op::ToAddr(H::Own(0)), Op::Send(H::Own(0), 66), Op::Await(H::Addr(0)), Op::Join(H::Own(0))]
+            } else {
+                vec![Op::Call(t, 1), Op::Clone(H::Addr(0)), Op::Send(H::Addr(0), 66), Op::Await(H::Addr(1))]
+            }
+        }
+    }
+}
+
+/// The registry entry points run inside the client task: they acquire the registry lock (a
+/// scheduling point) and - in some builds, or after a change to the library - await the fresh
+/// service, neither of which can complete inside scene setup, where no task runs.
+async fn spawn_in_task(e: Entry) -> Addr<P> {
+    let probe = || Probe::<0>::new(0);
+    match e {
+        Entry::BuildRegister => hannibal::build(probe()).unbounded().register().await.expect("register").0,
+        Entry::AddrRegister => probe().spawn().register().await.expect("register").0,
+        Entry::FromRegistry => P::from_registry().await,
+        _ => {
+            P::setup().await.expect("setup");
+            P::try_from_registry().expect("registered after setup")
         }
     }
 }
@@ -202,6 +302,16 @@ impl Scene for S {
     fn setup(&self, exec: &Exec) {
         W.with(|w| w.borrow_mut().default_role[0] = 0);
         STREAM.with(|s| *s.borrow_mut() = None);
+        if matches!(self.entry, Entry::BuildRegister | Entry::AddrRegister | Entry::FromRegistry | Entry::Setup) {
+            let (entry, prog) = (self.entry, self.prog);
+            exec.spawn_client(0, async move {
+                let a = spawn_in_task(entry).await;
+                let mut h = Handles::default();
+                h.addr.push(Some(a));
+                run_client(0, h, ops_for(prog, false)).await;
+            });
+            return;
+        }
         let mut h = Handles::default();
         let mut keep_handle = None;
         match spawn_via(self.entry) {
@@ -213,92 +323,7 @@ impl Scene for S {
             }
         }
         let owning = !h.own.is_empty();
-        let t = if owning { H::Own(0) } else { H::Addr(0) };
-        let ops = match self.prog {
-            Prog::Call => vec![Op::Call(t, 1), Op::Call(t, 2)],
-            Prog::DropOthersCall => {
-                if owning {
-                    vec![Op::ToAddr(H::Own(0)), Op::Drop(H::Own(0)), Op::Yield, Op::Call(H::Addr(0), 1)]
-                } else {
-                    // (for spawn_with the ActorHandle is dropped below, before the client runs)
-                    vec![Op::Clone(H::Addr(0)), Op::Drop(H::Addr(0)), Op::Yield, Op::Call(H::Addr(1), 1)]
-                }
-            }
-            Prog::DetachCall => {
-                if owning {
-                    vec![Op::Detach(H::Own(0)), Op::Yield, Op::Call(H::Addr(0), 1)]
-                } else {
-                    vec![Op::Yield, Op::Call(H::Addr(0), 1)]
-                }
-            }
-            Prog::StopAwaitJoin => {
-                if owning {
-                    vec![Op::Call(t, 1), Op::ToAddr(H::Own(0)), Op::Stop(H::Addr(0)), Op::Await(H::Addr(0)), Op::Join(H::Own(0))]
-                } else {
-                    vec![Op::Call(t, 1), Op::Clone(H::Addr(0)), Op::Stop(H::Addr(0)), Op::Await(H::Addr(1))]
-                }
-            }
-            Prog::Ticks => vec![Op::Sleep(4), Op::Call(t, 1)],
-            Prog::CallDropAll => vec![Op::Call(t, 1)],
-            Prog::AbandonJoinDetachCall => {
-                if owning {
-                    vec![Op::Call(t, 1), Op::JoinStart(H::Own(0)), Op::JoinDrop(0), Op::Detach(H::Own(0)), Op::Yield, Op::Call(H::Addr(0), 2)]
-                } else {
-                    vec![Op::Call(t, 1), Op::Yield, Op::Call(t, 2)]
-                }
-            }
-            Prog::AbandonJoinDropOwnerCall => {
-                if owning {
-                    vec![Op::Call(t, 1), Op::JoinStart(H::Own(0)), Op::JoinDrop(0), Op::ToAddr(H::Own(0)), Op::Drop(H::Own(0)), Op::Yield, Op::Call(H::Addr(0), 2)]
-                } else {
-                    vec![Op::Call(t, 1), Op::Yield, Op::Call(t, 2)]
-                }
-            }
-            Prog::PendingJoinDetachCall => {
-                if owning {
-                    vec![Op::Call(t, 1), Op::JoinStart(H::Own(0)), Op::Detach(H::Own(0)), Op::Yield, Op::Call(H::Addr(0), 2)]
-                } else {
-                    vec![Op::Call(t, 1), Op::Yield, Op::Call(t, 2)]
-                }
-            }
-            Prog::InFlightJoinDetachCall => {
-                if owning {
-                    vec![Op::Call(t, 1), Op::JoinStart(H::Own(0)), Op::JoinPollOnce(0), Op::Detach(H::Own(0)), Op::Yield, Op::Call(H::Addr(0), 2)]
-                } else {
-                    vec![Op::Call(t, 1), Op::Yield, Op::Call(t, 2)]
-                }
-            }
-            Prog::InFlightJoinSecondJoin => {
-                if owning {
-                    vec![
-                        Op::Call(t, 1),
-                        Op::JoinStart(H::Own(0)),
-                        Op::JoinPollOnce(0),
-                        Op::JoinStart(H::Own(0)),
-                        Op::JoinPollOnce(1),
-                        Op::ToAddr(H::Own(0)),
-                        Op::Stop(H::Addr(0)),
-                        Op::JoinAwait(0),
-                    ]
-                } else {
-                    vec![Op::Call(t, 1), Op::Yield, Op::Call(t, 2)]
-                }
-            }
-            Prog::UnwindDropOwnerCall => {
-                if owning {
-                    vec![Op::Call(t, 1), Op::ToAddr(H::Own(0)), Op::DropUnwinding(H::Own(0)), Op::Yield, Op::Call(H::Addr(0), 2)]
-                } else {
-                    vec![Op::Call(t, 1), Op::Clone(H::Addr(0)), Op::DropUnwinding(H::Addr(0)), Op::Yield, Op::Call(H::Addr(1), 2)]
-                }
-            }
-            Prog::PanicAwaitJoin => {
-                if owning {
-                    vec![Op::Call(t, 1), Op::ToAddr(H::Own(0)), Op::Send(H::Own(0), 66), Op::Await(H::Addr(0)), Op::Join(H::Own(0))]
-                } else {
-                    vec![Op::Call(t, 1), Op::Clone(H::Addr(0)), Op::Send(H::Addr(0), 66), Op::Await(H::Addr(1))]
-                }
-            }
-        };
+        let ops = ops_for(self.prog, owning);
         match (self.prog, keep_handle) {
             (Prog::DropOthersCall, Some(handle)) => drop(handle),
             (Prog::DetachCall, Some(handle)) => handle.detach(),
